@@ -38,7 +38,10 @@ Section Assoc.
 End Assoc.
 
 Inductive ver := VObj (o : obj) | VMarker.
-Record bucket := { b_versioned : bool; b_keys : list (bytes * list ver) (* versions, newest first *) }.
+(* bucket versioning: never enabled / Enabled / Suspended (the "null" version is overwritten in place) *)
+Inductive vmode := VOff | VOn | VSusp.
+Definition is_on (m : vmode) : bool := match m with VOn => true | _ => false end.
+Record bucket := { b_mode : vmode; b_keys : list (bytes * list ver) (* versions, newest first *) }.
 Definition store := list (bytes * bucket).
 Definition world := list store.                       (* backing databases 0 (default), 1, 2, ... *)
 Definition cfg := list (bytes * nat).                 (* bucketToStorageMap: bucket -> backing id *)
@@ -67,10 +70,13 @@ Inductive svid := SNone | SNull | SIdx (n : nat).
 Inductive res :=
 | ROk | RNoSuchBucket | RNoSuchKey | RExists | RNotEmpty | RPrecondition | RInvalidRange
 | RDeleteMarker | RMethodNotAllowed | RUploadNoSuchBucket
-| RCopied (v : svid) | RHead (o : obj) | RList (l : list bytes).
+| RCopied (v : svid) | RHead (o : obj) | RList (l : list bytes)
+| RTx (inner : list res) (committed : bool).
 
 (* ---------- copy options ---------- *)
-Inductive etag_cond := EEq | EWild | EOther.          (* the header value vs the source's ETag *)
+(* an If-Match / If-None-Match header value: the ETag of some object (content + part structure),
+   "*", or an ETag no object has *)
+Inductive etag_cond := EVal (d : bytes) (m : bool) | EWild | EOther.
 Inductive range := RgNone | RgSpan (s : Z) (e : option Z) | RgSuffix (n : Z).   (* storage.ByteRange, exclusive end *)
 Record conds := { c_im : option etag_cond; c_inm : option etag_cond;
                   c_ius : option Z; c_ims : option Z   (* absolute instants, milliseconds *) }.
@@ -80,39 +86,50 @@ Definition no_opts : copts := {| co_vid := None; co_range := RgNone; co_conds :=
 
 (* time.Time.Truncate(time.Second) on milliseconds *)
 Definition trunc_s (t : Z) : Z := (t / 1000 * 1000)%Z.
-Definition etag_is (c : etag_cond) : bool := match c with EEq => true | _ => false end.
+(* value == "*" || value == object.ETag *)
+Definition ec_matches (e : etag_cond) (o : obj) : bool :=
+  match e with
+  | EWild => true
+  | EOther => false
+  | EVal d m => bytes_eqb d (o_data o) && Bool.eqb m (o_m o)
+  end.
 
 (* conditional.go copySourceConditionsSatisfied *)
-Definition cross_conditions (c : conds) (lm : Z) : bool :=
-  let im_passed := match c_im c with Some e => match e with EOther => false | _ => true end | None => false end in
+Definition cross_conditions (c : conds) (o : obj) : bool :=
+  let im_passed := match c_im c with Some e => ec_matches e o | None => false end in
   if match c_im c with Some _ => negb im_passed | None => false end then false
-  else if match c_inm c with Some e => match e with EOther => false | _ => true end | None => false end then false
+  else if match c_inm c with Some e => ec_matches e o | None => false end then false
   else
-    let lmt := trunc_s lm in
+    let lmt := trunc_s (o_lm o) in
     if match c_ius c with Some t => negb (match c_im c with Some _ => im_passed | None => false end) && (t <? lmt)%Z | None => false end then false
     else if match c_ims c with Some t => negb (t <? lmt)%Z | None => false end then false
     else true.
 
 (* metadatapart object_read.go evaluateCopySourceConditions *)
-Definition inner_conditions (c : conds) (lm : Z) : bool :=
-  let if_match_passed :=
-    match c_im c with
-    | Some EWild | Some EEq => true
-    | _ => false
-    end in
+Definition inner_conditions (c : conds) (o : obj) : bool :=
+  let if_match_passed := match c_im c with Some e => ec_matches e o | None => false end in
   match c_im c, if_match_passed with
   | Some _, false => false
   | _, _ =>
     match c_inm c with
-    | Some EWild | Some EEq => false
-    | _ =>
-      let last_modified := trunc_s lm in
-      match c_ius c with
-      | Some t =>
-          if negb (match c_im c with Some _ => if_match_passed | None => false end) && (t <? last_modified)%Z then false
-          else match c_ims c with Some t' => (t' <? last_modified)%Z | None => true end
-      | None => match c_ims c with Some t' => (t' <? last_modified)%Z | None => true end
-      end
+    | Some e =>
+        if ec_matches e o then false
+        else
+          let last_modified := trunc_s (o_lm o) in
+          match c_ius c with
+          | Some t =>
+              if negb (match c_im c with Some _ => if_match_passed | None => false end) && (t <? last_modified)%Z then false
+              else match c_ims c with Some t' => (t' <? last_modified)%Z | None => true end
+          | None => match c_ims c with Some t' => (t' <? last_modified)%Z | None => true end
+          end
+    | None =>
+        let last_modified := trunc_s (o_lm o) in
+        match c_ius c with
+        | Some t =>
+            if negb (match c_im c with Some _ => if_match_passed | None => false end) && (t <? last_modified)%Z then false
+            else match c_ims c with Some t' => (t' <? last_modified)%Z | None => true end
+        | None => match c_ims c with Some t' => (t' <? last_modified)%Z | None => true end
+        end
     end
   end.
 
@@ -163,10 +180,10 @@ Definition find_version (s : store) (b k : bytes) (vid : option nat) : res + (ob
           | None =>
               match v with
               | VMarker => inl RDeleteMarker
-              | VObj o => inr (o, if b_versioned bk then SIdx (S (length vs)) else SNull)
+              | VObj o => inr (o, if is_on (b_mode bk) then SIdx (S (length vs)) else SNull)
               end
           | Some n =>
-              if negb (b_versioned bk) then inl RNoSuchKey
+              if negb (is_on (b_mode bk)) then inl RNoSuchKey
               else if (n =? 0) || (S (length vs) <? n) then inl RNoSuchKey
               else match nth_error (v :: vs) (S (length vs) - n) with
                    | Some (VObj o) => inr (o, SIdx n)
@@ -183,8 +200,22 @@ Definition put_obj (s : store) (b k : bytes) (o : obj) : option store :=
   | None => None
   | Some bk =>
       let old := match aget k (b_keys bk) with Some vs => vs | None => [] end in
-      let vs := if b_versioned bk then VObj o :: old else [VObj o] in
-      Some (aset b {| b_versioned := b_versioned bk; b_keys := aset k vs (b_keys bk) |} s)
+      let vs := if is_on (b_mode bk) then VObj o :: old else [VObj o] in
+      Some (aset b {| b_mode := b_mode bk; b_keys := aset k vs (b_keys bk) |} s)
+  end.
+
+(* DeleteObject without a version id: removes the object of an unversioned bucket, pushes a delete
+   marker in an Enabled bucket, replaces the null version by a delete marker in a Suspended one *)
+Definition del_obj (s : store) (b k : bytes) : option store :=
+  match aget b s with
+  | None => None
+  | Some bk =>
+      let keys := match b_mode bk with
+                  | VOn => aset k (VMarker :: match aget k (b_keys bk) with Some vs => vs | None => [] end) (b_keys bk)
+                  | VSusp => aset k [VMarker] (b_keys bk)
+                  | VOff => adel k (b_keys bk)
+                  end in
+      Some (aset b {| b_mode := b_mode bk; b_keys := keys |} s)
   end.
 
 (* the object a copy writes, given the source version and the window; [cross] = re-put by the
@@ -205,7 +236,7 @@ Definition cross_copy (ss ds : store) (sb sk db dk : bytes) (o : copts) (mp : bo
   match find_version ss sb sk (co_vid o) with
   | inl r => (None, r)
   | inr (src, v) =>
-      if negb (cross_conditions (co_conds o) (o_lm src)) then (None, RPrecondition)
+      if negb (cross_conditions (co_conds o) src) then (None, RPrecondition)
       else match read_window (co_range o) (sizeZ (o_data src)) with
            | None => (None, RInvalidRange)
            | Some win =>
@@ -221,7 +252,7 @@ Definition inner_copy (ss ds : store) (sb sk db dk : bytes) (o : copts) (mp : bo
   match find_version ss sb sk (co_vid o) with
   | inl r => (None, r)
   | inr (src, v) =>
-      if inner_conditions (co_conds o) (o_lm src) then
+      if inner_conditions (co_conds o) src then
         match (if mp then part_window else read_window) (co_range o) (sizeZ (o_data src)) with
         | None => (None, RInvalidRange)
         | Some win =>
@@ -233,10 +264,54 @@ Definition inner_copy (ss ds : store) (sb sk db dk : bytes) (o : copts) (mp : bo
       else (None, RPrecondition)
   end.
 
+(* ---------- a copy racing with another client ---------- *)
+(* the concurrent writer acts on the source key *)
+Inductive writer := WPut (o : obj) | WDel.
+Definition apply_writer (wr : writer) (s : store) (b k : bytes) : store :=
+  match (match wr with WPut o => put_obj s b k o | WDel => del_obj s b k end) with Some s' => s' | None => s end.
+
+(* ETags: equal content and equal part structure *)
+Definition etag_eqb (a b : obj) : bool := bytes_eqb (o_data a) (o_data b) && Bool.eqb (o_m a) (o_m b).
+
+(* conditional.go across instances as its call sequence: HeadObject on [s_head] (+ the preconditions),
+   GetObject(VersionID, IfMatchETag = the head's ETag, range) on [s_get], PutObject on the destination.
+   The bytes come from the GetObject, everything else from the HeadObject. *)
+Definition cross_copy_gen (s_head s_get ds : store) (sb sk db dk : bytes) (o : copts) (mp : bool) (now : Z) : option store * res :=
+  match find_version s_head sb sk (co_vid o) with
+  | inl r => (None, r)
+  | inr (src, v) =>
+      if negb (cross_conditions (co_conds o) src) then (None, RPrecondition)
+      else match find_version s_get sb sk (co_vid o) with
+           | inl r => (None, r)
+           | inr (got, _) =>
+               if negb (etag_eqb src got) then (None, RPrecondition)
+               else match read_window (co_range o) (sizeZ (o_data got)) with
+                    | None => (None, RInvalidRange)
+                    | Some win =>
+                        let ob := copied_obj src win (is_ranged (co_range o)) true mp now in
+                        match put_obj ds db dk {| o_data := sub_bytes (o_data got) win; o_c := o_c ob; o_u := o_u ob;
+                                                  o_t := o_t ob; o_m := o_m ob; o_lm := o_lm ob |} with
+                        | None => (None, RNoSuchBucket)
+                        | Some ds' => (Some ds', RCopied v)
+                        end
+                    end
+           end
+  end.
+
+(* the writer runs at call boundary k: 1 = before HeadObject, 2 = between HeadObject and GetObject,
+   3 (or more) = after GetObject returned *)
+Definition cross_copy_at (k : nat) (wr : writer) (ss ds : store) (sb sk db dk : bytes) (o : copts) (mp : bool) (now : Z) : option store * res :=
+  let ssw := apply_writer wr ss sb sk in
+  match k with
+  | 0 | 1 => cross_copy_gen ssw ssw ds sb sk db dk o mp now
+  | 2 => cross_copy_gen ss ssw ds sb sk db dk o mp now
+  | _ => cross_copy_gen ss ss ds sb sk db dk o mp now
+  end.
 Inductive op :=
-| CreateBucket (b : bytes) (versioned : bool) | DeleteBucket (b : bytes)
+| CreateBucket (b : bytes) (mode : vmode) | DeleteBucket (b : bytes)
 | Put (b k : bytes) (o : obj) | Del (b k : bytes) | Head (b k : bytes) (vid : option nat)
-| Copy (sb sk db dk : bytes) (o : copts) | PartCopy (sb sk db dk : bytes) (o : copts) | ListBuckets.
+| Copy (sb sk db dk : bytes) (o : copts) | PartCopy (sb sk db dk : bytes) (o : copts) | ListBuckets
+| CopyAt (part : bool) (sb sk db dk : bytes) (o : copts) (k : nat) (wr : writer).
 
 (* insertion sort by name (slices.SortFunc with strings.Compare) *)
 Fixpoint ins (x : bytes) (l : list bytes) : list bytes :=
@@ -252,7 +327,7 @@ Definition step (c : cfg) (now : Z) (w : world) (o : op) : world * res :=
       let i := route c b in
       match aget b (get_store w i) with
       | Some _ => (w, RExists)
-      | None => (upd_nth i (aset b {| b_versioned := v; b_keys := [] |}) w, ROk)
+      | None => (upd_nth i (aset b {| b_mode := v; b_keys := [] |}) w, ROk)
       end
   | DeleteBucket b =>
       let i := route c b in
@@ -268,13 +343,9 @@ Definition step (c : cfg) (now : Z) (w : world) (o : op) : world * res :=
       end
   | Del b k =>
       let i := route c b in
-      match aget b (get_store w i) with
+      match del_obj (get_store w i) b k with
       | None => (w, RNoSuchBucket)
-      | Some bk =>
-          let keys := if b_versioned bk
-                      then aset k (VMarker :: match aget k (b_keys bk) with Some vs => vs | None => [] end) (b_keys bk)
-                      else adel k (b_keys bk) in
-          (upd_nth i (aset b {| b_versioned := b_versioned bk; b_keys := keys |}) w, ROk)
+      | Some s' => (upd_nth i (fun _ => s') w, ROk)
       end
   | Head b k vid =>
       match find_version (get_store w (route c b)) b k vid with inl r => (w, r) | inr (ob, _) => (w, RHead ob) end
@@ -291,6 +362,21 @@ Definition step (c : cfg) (now : Z) (w : world) (o : op) : world * res :=
           let '(ds', r) := (if same_instance c sb db then inner_copy else cross_copy) ss (get_store w di) sb sk db dk co true now in
           (match ds' with Some s' => upd_nth di (fun _ => s') w | None => w end, r)
       end
+  | CopyAt part sb sk db dk co k wr =>
+      let si := route c sb in let di := route c db in
+      (* the writer's effect on the source storage happens exactly once, whatever becomes of the copy *)
+      let wr_w := fun w0 : world => upd_nth si (fun s => apply_writer wr s sb sk) w0 in
+      if part && match aget db (get_store w di) with None => true | Some _ => false end then (wr_w w, RUploadNoSuchBucket)
+      else if same_instance c sb db then
+        (* the storage's own copy is one step: the writer comes before it (k <= 1) or after it *)
+        let w0 := if (k <=? 1) then wr_w w else w in
+        let '(ds', r) := inner_copy (get_store w0 si) (get_store w0 di) sb sk db dk co part now in
+        let w2 := match ds' with Some s' => upd_nth di (fun _ => s') w0 | None => w0 end in
+        (if (k <=? 1) then w2 else wr_w w2, r)
+      else
+        let w1 := wr_w w in
+        let '(ds', r) := cross_copy_at k wr (get_store w si) (get_store w1 di) sb sk db dk co part now in
+        (match ds' with Some s' => upd_nth di (fun _ => s') w1 | None => w1 end, r)
   | ListBuckets =>
       (w, RList (isort (flat_map (fun e => buckets_of (get_store w (snd e))) c ++ buckets_of (get_store w 0))))
   end.
@@ -321,11 +407,18 @@ Definition show_res (r : res) : bytes :=
   | RCopied v => B"ok:" ++ show_svid v
   | RHead o => B"H:" ++ show_obj o
   | RList l => B"L:" ++ join B"," l
+  | RTx _ _ => B"T"
+  end.
+(* a transaction element shows its inner results *)
+Definition show_res_top (r : res) : bytes :=
+  match r with
+  | RTx inner c => B"T[" ++ join B"/" (map show_res inner) ++ B"]:" ++ (if c then B"ok" else B"rb")
+  | _ => show_res r
   end.
 Definition show_ver (v : ver) : bytes := match v with VMarker => B"DM" | VObj o => show_obj o end.
 Definition show_store (i : nat) (s : store) : bytes :=
   show_nat i ++ B":" ++ join B"," (map (fun be =>
-    fst be ++ (if b_versioned (snd be) then B"!" else []) ++ B"{"
+    fst be ++ (match b_mode (snd be) with VOn => B"!" | VSusp => B"~" | VOff => [] end) ++ B"{"
     ++ join B"," (map (fun kv => fst kv ++ B"=" ++ join B"|" (map show_ver (snd kv)))
                       (filter (fun kv => negb (is_nil (snd kv))) (b_keys (snd be)))) ++ B"}") s).
 
@@ -335,8 +428,18 @@ Definition parse_cfg (t : bytes) : option cfg :=
                       | [b; i] => option_map (fun n => (b, n)) (parse_nat i)
                       | _ => None end) (split_on ","%byte t).
 Definition parse_data (d : bytes) : bytes := if bytes_eqb d B"E" then [] else d.
-Definition mkobj (d : bytes) (meta mp : bool) : obj :=
-  {| o_data := parse_data d; o_c := meta; o_u := meta; o_t := meta; o_m := mp; o_lm := 0 |}.
+(* meta: 0 nothing, 1 content type + user metadata + tags, 2 content type only *)
+Definition mkobj (d : bytes) (meta : N) (mp : bool) : obj :=
+  {| o_data := parse_data d; o_c := negb (meta =? 0)%N; o_u := (meta =? 1)%N; o_t := (meta =? 1)%N; o_m := mp; o_lm := 0 |}.
+Definition parse_meta (t : bytes) : option N :=
+  match parse_N t with Some n => if (n <=? 2)%N then Some n else None | None => None end.
+Definition parse_writer (t : bytes) : option writer :=
+  match split_on ":"%byte t with
+  | [o] => if bytes_eqb o B"del" then Some WDel else None
+  | [o; d] => if bytes_eqb o B"mput" then Some (WPut (mkobj d 0 true)) else None
+  | [o; d; m] => if bytes_eqb o B"put" then option_map (fun m => WPut (mkobj d m false)) (parse_meta m) else None
+  | _ => None
+  end.
 Definition parse_vid (t : bytes) : option (option nat) :=
   if bytes_eqb t B"-" then Some None else option_map Some (parse_nat t).
 Definition parse_range (t : bytes) : option range :=
@@ -347,12 +450,14 @@ Definition parse_range (t : bytes) : option range :=
        | Some (s, e) => match parse_Z s, parse_Z e with Some s, Some e => Some (RgSpan s (Some e)) | _, _ => None end
        | None => None
        end.
-Definition parse_ec (b : byte) : option etag_cond :=
-  if beqb b "E"%byte then Some EEq else if beqb b "W"%byte then Some EWild
-  else if beqb b "X"%byte then Some EOther else None.
+(* as written in the case line: E = the ETag of the source as the client saw it, W = "*", X = another ETag *)
+Inductive rel_ec := REq | RWild | ROther.
+Definition parse_ec (b : byte) : option rel_ec :=
+  if beqb b "E"%byte then Some REq else if beqb b "W"%byte then Some RWild
+  else if beqb b "X"%byte then Some ROther else None.
 (* condition items; times are given relative to the source's Last-Modified second, so they are
    kept as offsets here and made absolute when the source is known *)
-Record rconds := { r_im : option etag_cond; r_inm : option etag_cond; r_ius : option Z; r_ims : option Z }.
+Record rconds := { r_im : option rel_ec; r_inm : option rel_ec; r_ius : option Z; r_ims : option Z }.
 Definition parse_cond_item (acc : rconds) (t : bytes) : option rconds :=
   match t with
   | a :: b :: rest =>
@@ -370,27 +475,48 @@ Definition parse_conds (t : bytes) : option rconds :=
   else fold_left (fun acc it => match acc with Some a => parse_cond_item a it | None => None end) (split_on "+"%byte t) (Some z).
 
 (* parsed operation: copies still carry relative times *)
-Inductive pop := POp (o : op) | PCopy (part : bool) (sb sk db dk : bytes) (vid : option nat) (r : range) (rc : rconds).
+Inductive pop :=
+| POp (o : op)
+| PCopy (part : bool) (sb sk db dk : bytes) (vid : option nat) (r : range) (rc : rconds) (at_ : option (nat * writer))
+| PTx (commit : bool) (ops : list pop).
 
 Definition parse_op (t : bytes) : option pop :=
   match split_on ","%byte t with
-  | [o; b] => if bytes_eqb o B"cb" then Some (POp (CreateBucket b false)) else if bytes_eqb o B"cbv" then Some (POp (CreateBucket b true))
+  | [o; b] => if bytes_eqb o B"cb" then Some (POp (CreateBucket b VOff)) else if bytes_eqb o B"cbv" then Some (POp (CreateBucket b VOn))
+              else if bytes_eqb o B"cbs" then Some (POp (CreateBucket b VSusp))
               else if bytes_eqb o B"db" then Some (POp (DeleteBucket b)) else None
   | [o] => if bytes_eqb o B"lb" then Some (POp ListBuckets) else None
   | [o; b; k] => if bytes_eqb o B"del" then Some (POp (Del b k)) else if bytes_eqb o B"head" then Some (POp (Head b k None)) else None
-  | [o; b; k; d] => if bytes_eqb o B"mput" then Some (POp (Put b k (mkobj d false true)))
+  | [o; b; k; d] => if bytes_eqb o B"mput" then Some (POp (Put b k (mkobj d 0 true)))
                     else if bytes_eqb o B"head" then option_map (fun n => POp (Head b k (Some n))) (parse_nat d) else None
   | [o; b; k; d; m] =>
-      if bytes_eqb o B"put" then option_map (fun mb => POp (Put b k (mkobj d mb false))) (parse_bool m)
-      else if bytes_eqb o B"cp" then Some (PCopy false b k d m None RgNone {| r_im := None; r_inm := None; r_ius := None; r_ims := None |}) else None
+      if bytes_eqb o B"put" then option_map (fun mb => POp (Put b k (mkobj d mb false))) (parse_meta m)
+      else if bytes_eqb o B"cp" then Some (PCopy false b k d m None RgNone {| r_im := None; r_inm := None; r_ius := None; r_ims := None |} None) else None
   | [o; sb; sk; db; dk; v; r; cn] =>
       match parse_vid v, parse_range r, parse_conds cn with
       | Some v, Some r, Some cn =>
-          if bytes_eqb o B"cp" then Some (PCopy false sb sk db dk v r cn)
-          else if bytes_eqb o B"upc" then Some (PCopy true sb sk db dk v r cn) else None
+          if bytes_eqb o B"cp" then Some (PCopy false sb sk db dk v r cn None)
+          else if bytes_eqb o B"upc" then Some (PCopy true sb sk db dk v r cn None) else None
       | _, _, _ => None
       end
+  | [o; sb; sk; db; dk; v; r; cn; k; wr] =>
+      match parse_vid v, parse_range r, parse_conds cn, parse_nat k, parse_writer wr with
+      | Some v, Some r, Some cn, Some k, Some wr =>
+          if bytes_eqb o B"cpi" then Some (PCopy false sb sk db dk v r cn (Some (k, wr)))
+          else if bytes_eqb o B"upci" then Some (PCopy true sb sk db dk v r cn (Some (k, wr))) else None
+      | _, _, _, _, _ => None
+      end
   | _ => None
+  end.
+
+(* a history element: an operation, or txc= / txr= / txcs= / txrs= followed by '/'-separated operations *)
+Definition parse_elem (t : bytes) : option pop :=
+  match split_first "="%byte t with
+  | Some (tag, body) =>
+      let commit := bytes_eqb tag B"txc" || bytes_eqb tag B"txcs" in
+      if commit || bytes_eqb tag B"txr" || bytes_eqb tag B"txrs"
+      then option_map (PTx commit) (mapM parse_op (split_on "/"%byte body)) else None
+  | None => parse_op t
   end.
 
 (* make the relative times absolute: source Last-Modified second + d seconds (the harness does the
@@ -399,19 +525,63 @@ Definition resolve (c : cfg) (w : world) (p : pop) (now : Z) : op :=
   match p with
   | POp (Put b k o) => Put b k {| o_data := o_data o; o_c := o_c o; o_u := o_u o; o_t := o_t o; o_m := o_m o; o_lm := now |}
   | POp o => o
-  | PCopy part sb sk db dk vid r rc =>
-      let lm := match find_version (get_store w (route c sb)) sb sk vid with inr (o, _) => o_lm o | inl _ => now end in
+  | PTx _ _ => ListBuckets   (* not used: transaction elements are run by [run_parsed] *)
+  | PCopy part sb sk db dk vid0 r rc at_ =>
+      (* the client builds the request from the source as it is BEFORE the operation starts; it cannot name a
+         version that does not exist yet (index 0 stands for an id no version has) *)
+      let nvers := match aget sb (get_store w (route c sb)) with
+                   | Some bk => match aget sk (b_keys bk) with Some vs => length vs | None => 0 end
+                   | None => 0
+                   end in
+      let vid := match vid0 with Some n => if nvers <? n then Some 0 else Some n | None => None end in
+      let seen := match find_version (get_store w (route c sb)) sb sk vid with inr (o, _) => Some o | inl _ => None end in
+      let lm := match seen with Some o => o_lm o | None => now end in
       let abs d := (trunc_s lm + d * 1000)%Z in
+      let ec (e : rel_ec) := match e with
+                             | RWild => EWild | ROther => EOther
+                             | REq => match seen with Some o => EVal (o_data o) (o_m o) | None => EOther end
+                             end in
       let co := {| co_vid := vid; co_range := r;
-                   co_conds := {| c_im := r_im rc; c_inm := r_inm rc; c_ius := option_map abs (r_ius rc); c_ims := option_map abs (r_ims rc) |} |} in
-      if part then PartCopy sb sk db dk co else Copy sb sk db dk co
+                   co_conds := {| c_im := option_map ec (r_im rc); c_inm := option_map ec (r_inm rc); c_ius := option_map abs (r_ius rc); c_ims := option_map abs (r_ims rc) |} |} in
+      match at_ with
+      | Some (k, wr) =>
+          let wr' := match wr with
+                     | WPut o => WPut {| o_data := o_data o; o_c := o_c o; o_u := o_u o; o_t := o_t o; o_m := o_m o; o_lm := now |}
+                     | WDel => WDel
+                     end in
+          CopyAt part sb sk db dk co k wr'
+      | None => if part then PartCopy sb sk db dk co else Copy sb sk db dk co
+      end
   end.
 
+(* ---------- the ambient transaction ----------
+   router.WithTransaction opens the DEFAULT storage's transaction and hands the router to the
+   callback.  Inside, operations on buckets of the default backing (0) work on its pending state
+   [pend], invisible to other connections until the commit; operations on routed buckets reach their
+   own backing's database directly and are committed there at once. *)
+Definition set0 (w : world) (p : store) : world := upd_nth 0 (fun _ => p) w.
+Fixpoint tx_run (c : cfg) (n : Z) (w : world) (pend : store) (ops : list pop) : world * store * list res :=
+  match ops with
+  | [] => (w, pend, [])
+  | p :: r => let now := (n * 1000 + 537)%Z in
+              (* the callback's view: the committed world with the default backing replaced by the pending state *)
+              let view := set0 w pend in
+              let '(v1, x) := step c now view (resolve c view p now) in
+              let '(w2, pend2, xs) := tx_run c (n + 1)%Z (set0 v1 (get_store w 0)) (get_store v1 0) r in
+              (w2, pend2, x :: xs)
+  end.
+
+Definition run_elem (c : cfg) (n : Z) (w : world) (p : pop) : world * res :=
+  match p with
+  | PTx commit ops =>
+      let '(w1, pend, rs) := tx_run c (n * 1000)%Z w (get_store w 0) ops in
+      (if commit then set0 w1 pend else w1, RTx rs commit)
+  | _ => let now := (n * 1000 + 537)%Z in step c now w (resolve c w p now)
+  end.
 Fixpoint run_parsed (c : cfg) (n : Z) (w : world) (ops : list pop) : world * list res :=
   match ops with
   | [] => (w, [])
-  | p :: r => let now := (n * 1000 + 537)%Z in
-              let '(w1, x) := step c now w (resolve c w p now) in
+  | p :: r => let '(w1, x) := run_elem c n w p in
               let '(w2, xs) := run_parsed c (n + 1)%Z w1 r in (w2, x :: xs)
   end.
 
@@ -419,8 +589,8 @@ Definition run_line (l : bytes) : bytes :=
   match tokens l with
   | [c; ops] =>
       do c <- parse_cfg c;
-      do ops <- mapM parse_op (split_on ";"%byte ops);
+      do ops <- mapM parse_elem (split_on ";"%byte ops);
       let '(w, rs) := run_parsed c 1%Z [[]; []; []] ops in
-      join B";" (map show_res rs) ++ B" | " ++ unwords [show_store 0 (get_store w 0); show_store 1 (get_store w 1); show_store 2 (get_store w 2)]
+      join B";" (map show_res_top rs) ++ B" | " ++ unwords [show_store 0 (get_store w 0); show_store 1 (get_store w 1); show_store 2 (get_store w 2)]
   | _ => parse_error
   end.
